@@ -22,7 +22,7 @@ def one(name):
     return res
 names=sorted(n for n in os.listdir('/verif/twins') if (len(sys.argv)<3 or sys.argv[2] in n))
 out=open(sys.argv[1],'w')
-with ThreadPoolExecutor(6) as ex:
+with ThreadPoolExecutor(7) as ex:
     for res in ex.map(one, names):
         for l in res: out.write(l+"\n")
         out.flush()
